@@ -441,8 +441,8 @@ pub fn mk(v: &V) -> AnyView {
         V::OfN(n, i, x) => mk_of_n(*n, *i, mk(x)),
         V::Spread(attrs, x) => spread(x, attrs),
         V::Rich(t, attrs, ks) => {
-            let extra: Vec<AnyAttribute> = attrs.iter().map(|(k, r, v)| rich_attr(*k, *r, v)).collect();
             let kids: Vec<AnyView> = ks.iter().map(mk).collect();
+            let extra: Vec<AnyAttribute> = attrs.iter().map(|(k, r, v)| rich_attr(*k, *r, v)).collect();
             match t {
                 0 => element_spread!(div(), &[], kids, extra),
                 1 => element_spread!(span(), &[], kids, extra),
@@ -1123,6 +1123,11 @@ fn run_case(c: &Sexp) -> Sexp {
     if c.at(0).num() == 4 {
         return x::run_reactive(c);
     }
+    // shape 7 `(7 typed typed2 skip entry)`: a TYPED root (see `typed_flow`)
+    if c.at(0).num() == 7 {
+        FLAT.with(|f| f.set(true));
+        return typed_flow(c);
+    }
     // shape 6 `(6 v v2 skip entry)`: the wide grammar of the audit (flat tuples), hydrated through the public
     // entry points: entry 0 `hydrate_from(root)`, 1 `hydrate_from_position(el, Position::Current)` on the
     // element the (element-rooted) view was rendered to
@@ -1131,7 +1136,23 @@ fn run_case(c: &Sexp) -> Sexp {
     let entry = if wide { c.at(4).num() } else { 0 };
     let v1 = dec_view(c.at(1));
     let v2 = dec_view(c.at(2));
-    let html = mk(&v1).to_html();
+    let vp = perturb(&v1);
+    // `(0 v1 v2 1)`: no rebuild with the perturbed view before the rebuild with v2
+    let skip = c.at(3).num() != 0;
+    flow(|i| mk([&v1, &vp, &v2][i]), wide, entry, skip)
+}
+
+/// The hydration flow for a view type `T` (`make(0)` the view, `make(1)` the same shape with every text /
+/// attribute value changed, `make(2)` the second view): server rendering, parse, hydrate, compare with
+/// the client-built twin, rebuild both twice. `T = AnyView` for the generated grammars; a concrete type
+/// for the typed roots (`into_any` stores `T::Owned` with the attributes' `CloneableOwned` forms: `&str` /
+/// `Cow` children become `String`, `String` / `&str` attribute values `Arc<str>`, closures shared functions).
+fn flow<T, F>(make: F, wide: bool, entry: i64, skip: bool) -> Sexp
+where
+    T: RenderHtml,
+    F: Fn(usize) -> T,
+{
+    let html = make(0).to_html();
     let root = Dom::create_element("div", None);
     let r0 = root.id();
     parse_into(&root, &html);
@@ -1140,12 +1161,17 @@ fn run_case(c: &Sexp) -> Sexp {
     let m0 = ndom::mutations();
     let hyd = catch_unwind(AssertUnwindSafe(|| {
         if !wide {
-            mk(&v1).hydrate::<true>(&Cursor::new(root.clone()), &PositionState::default())
+            make(0).hydrate::<true>(&Cursor::new(root.clone()), &PositionState::default())
         } else if entry == 1 {
             let el = root.children().into_iter().find(|k| k.is_element()).expect("harness: entry 1 needs an element-rooted view");
-            mk(&v1).hydrate_from_position::<true>(&Element(el), Position::Current)
+            // an element follows the one to hydrate: `Position::Current` must not look at it
+            let sib = Dom::create_element("span", None);
+            Dom::insert_node(&root, &sib, None);
+            let st = make(0).hydrate_from_position::<true>(&Element(el), Position::Current);
+            Dom::remove(&sib);
+            st
         } else {
-            mk(&v1).hydrate_from::<true>(&root)
+            make(0).hydrate_from::<true>(&root)
         }
     }));
     let nops = ndom::mutations() - m0;
@@ -1157,7 +1183,7 @@ fn run_case(c: &Sexp) -> Sexp {
 
     // the client-built twin
     let root2 = Dom::create_element("div", None);
-    let mut st2 = mk(&v1).build();
+    let mut st2 = make(0).build();
     st2.mount(&root2, None);
     let csr_eq = visible(&root) == visible(&root2);
     if std::env::var("C05_DEBUG").is_ok() {
@@ -1169,11 +1195,11 @@ fn run_case(c: &Sexp) -> Sexp {
     preorder(&root, &mut nodes);
     let counts: Vec<(u64, u64)> = nodes.iter().map(|n| (n.id(), n.mutations())).collect();
     let twin_before = shape(&root2);
-    // `(0 v1 v2 1)`: no rebuild with the perturbed view before the rebuild with v2
-    let skip = c.at(3).num() != 0;
-    let vp = perturb(&v1);
-    let twin_ok = skip || catch_unwind(AssertUnwindSafe(|| mk(&vp).rebuild(&mut st2))).is_ok();
-    let hyd_ok = skip || catch_unwind(AssertUnwindSafe(|| mk(&vp).rebuild(&mut st))).is_ok();
+    let twin_ok = skip || catch_unwind(AssertUnwindSafe(|| make(1).rebuild(&mut st2))).is_ok();
+    let hyd_ok = skip || catch_unwind(AssertUnwindSafe(|| make(1).rebuild(&mut st))).is_ok();
+    if std::env::var("C05_DEBUG").is_ok() {
+        eprintln!("after the same-shape rebuild\nhydrated: {}\nbuilt:    {}", root.serialize(), root2.serialize());
+    }
     let mut touched: Vec<i64> = nodes
         .iter()
         .zip(counts.iter())
@@ -1196,11 +1222,11 @@ fn run_case(c: &Sexp) -> Sexp {
     let perturbed_ok = hyd_ok && visible(&root) == visible(&root2) && created_h == created_t;
 
     // rebuild with the second view
-    let twin_ok = catch_unwind(AssertUnwindSafe(|| mk(&v2).rebuild(&mut st2))).is_ok();
+    let twin_ok = catch_unwind(AssertUnwindSafe(|| make(2).rebuild(&mut st2))).is_ok();
     let rebuild_ok = if !twin_ok || !hyd_ok {
         true
     } else {
-        let ok = catch_unwind(AssertUnwindSafe(|| mk(&v2).rebuild(&mut st))).is_ok();
+        let ok = catch_unwind(AssertUnwindSafe(|| make(2).rebuild(&mut st))).is_ok();
         if std::env::var("C05_DEBUG").is_ok() {
             eprintln!("after rebuild(v2)\nhydrated: {}\nbuilt:    {}", root.serialize(), root2.serialize());
         }
@@ -1220,6 +1246,106 @@ fn run_case(c: &Sexp) -> Sexp {
         out.push(Sexp::bool(rebuild_ok));
     }
     Lst(out)
+}
+
+/// One typed root `(attr texts rest)`: `<div ATTR>{&'static str}{Cow::Borrowed}{Cow::Owned}{rest}</div>` as its
+/// CONCRETE type: `attr = (kind repr value)` as for op 26 (the representations that `into_any` would convert),
+/// `texts` three strings, `rest` any view (erased).
+struct TypedRoot {
+    attr: (i64, i64, Option<String>),
+    texts: [String; 3],
+    rest: V,
+}
+fn dec_typed(s: &Sexp) -> TypedRoot {
+    let a = s.at(0);
+    TypedRoot {
+        attr: (a.at(0).num(), a.at(1).num(), if a.at(2).at(0).num() != 0 { Some(text(a.at(2).at(1))) } else { None }),
+        texts: [text(s.at(1).at(0)), text(s.at(1).at(1)), text(s.at(1).at(2))],
+        rest: dec_view(s.at(2)),
+    }
+}
+fn perturb_typed(t: &TypedRoot) -> TypedRoot {
+    TypedRoot {
+        attr: (t.attr.0, t.attr.1, t.attr.2.as_ref().map(|s| format!("{s}~"))),
+        texts: [format!("{}~", t.texts[0]), format!("{}~", t.texts[1]), format!("{}~", t.texts[2])],
+        rest: perturb(&t.rest),
+    }
+}
+
+/// case `(7 typed typed2 skip entry)`: both roots have the same attribute kind / representation
+fn typed_flow(c: &Sexp) -> Sexp {
+    use std::borrow::Cow;
+    use tachys::html::{attribute::dir, class::class, element::inner_html, style::style};
+    let t1 = dec_typed(c.at(1));
+    let t2 = dec_typed(c.at(2));
+    let tp = perturb_typed(&t1);
+    let skip = c.at(3).num() != 0;
+    let entry = c.at(4).num();
+    let ts = [&t1, &tp, &t2];
+    let (kind, repr) = (t1.attr.0, t1.attr.1);
+    macro_rules! go {
+        (|$val:ident| $attr:expr) => {
+            flow(
+                |i| {
+                    let t: &TypedRoot = ts[i];
+                    let $val: &Option<String> = &t.attr.2;
+                    div().add_any_attr($attr).child((
+                        leak(&t.texts[0]),
+                        Cow::<'static, str>::Borrowed(leak(&t.texts[1])),
+                        Cow::<'static, str>::Owned(t.texts[2].clone()),
+                        mk(&t.rest),
+                    ))
+                },
+                true,
+                entry,
+                skip,
+            )
+        };
+    }
+    // `inner_html` takes the place of the children: the element has none
+    macro_rules! go0 {
+        (|$val:ident| $attr:expr) => {
+            flow(
+                |i| {
+                    let t: &TypedRoot = ts[i];
+                    let $val: &Option<String> = &t.attr.2;
+                    div().add_any_attr($attr)
+                },
+                true,
+                entry,
+                skip,
+            )
+        };
+    }
+    let s = |v: &Option<String>| v.clone().unwrap_or_default();
+    match (kind, repr) {
+        (7, 0) => go0!(|v| inner_html(s(v))),
+        (7, 1) => go0!(|v| inner_html(leak(&s(v)))),
+        (7, 2) => go0!(|v| inner_html(std::sync::Arc::<str>::from(s(v).as_str()))),
+        (7, _) => go0!(|v| inner_html(v.clone())),
+        (0, 0) => go!(|v| dir(leak(&s(v)))),
+        (0, 1) => go!(|v| dir(s(v))),
+        (0, 2) => go!(|v| dir(std::sync::Arc::<str>::from(s(v).as_str()))),
+        (0, 3) => go!(|v| dir(v.clone())),
+        (1, 0) => go!(|v| class(leak(&s(v)))),
+        (1, 1) => go!(|v| class(s(v))),
+        (1, 3) => go!(|v| class(Cow::<'static, str>::Owned(s(v)))),
+        (1, 4) => go!(|v| class(v.clone())),
+        (3, 0) => go!(|v| style(("width", leak(&s(v))))),
+        (3, 2) => go!(|v| style(("width", s(v)))),
+        (5, 0) => go!(|v| style(leak(&s(v)))),
+        (5, 1) => go!(|v| style(s(v))),
+        (5, 3) => go!(|v| style(v.clone())),
+        (6, 0) => go!(|v| custom_attribute("data-k", s(v))),
+        (6, 1) => go!(|v| custom_attribute(String::from("data-k"), s(v))),
+        (6, 2) => go!(|v| custom_attribute(Cow::<'static, str>::Borrowed("data-k"), s(v))),
+        (8, 0) => go!(|v| Either::<_, tachys::html::attribute::custom::CustomAttr<&'static str, String>>::Left(dir(s(v)))),
+        (8, 1) => go!(|v| Either::<tachys::html::attribute::Attr<tachys::html::attribute::Dir, String>, _>::Right(custom_attribute(
+            "data-e",
+            s(v)
+        ))),
+        _ => go!(|v| tachys::html::attribute::title(s(v))),
+    }
 }
 
 
